@@ -227,6 +227,11 @@ func (f *Frame) unknownCall(x ssa.Value, key string, args []*Val, rts []types.Ty
 		vals = append(vals, v)
 	}
 	e.noteUnknown(key)
+	if e.frameOn && e.topFC != nil && e.topFC.ModGiven && !e.topFC.NoFrame {
+		// a call without contract may write anything: the frame cannot be established
+		e.addObl(&Obligation{Name: fmt.Sprintf("%s#frame[call without contract: %s]", e.unit, shortKey(key)), Kind: "frame", Func: f.prefix, Label: "unknown-call",
+			Text: "callee has no contract: its writes are unknown", Guard: f.guard(), Goal: "false", Pos: f.posOf(f.curInstr)})
+	}
 	f.setResult(x, vals, nil)
 }
 
